@@ -14,6 +14,8 @@ structure DS where
   names : List String := ["m0", "m1", "u0", "u1", "u2"]
   /-- generated (autogen) transactions: applied by PlayForMiner like a coinbase, but they do not count as coinbase for the ledger -/
   autogen : List Nat := []
+  /-- transactions whose signature does not verify (`sig=bad`): refused by the verification stage of Play / Walk -/
+  badsig : List Nat := []
 deriving Inhabited
 
 def kvOf (ws : List String) : List (String × String) :=
@@ -150,7 +152,7 @@ def lockConflict (a b : Tx) : Bool :=
 `PlayForMiner` applies it unverified. The poison is an extra read of a key that never exists: admission fails, undo is unaffected. -/
 def verifyEnv (d : DS) : Env :=
   { d.env with txs := d.env.txs.map (fun p =>
-      if d.autogen.contains p.1 then (p.1, { p.2 with kin := ⟨"!autogen", some (0, 999999)⟩ :: p.2.kin }) else p) }
+      if d.autogen.contains p.1 || d.badsig.contains p.1 then (p.1, { p.2 with kin := ⟨"!autogen", some (0, 999999)⟩ :: p.2.kin }) else p) }
 
 /-- the environment of a walk to `dest`: `skipRepost` = the pending transactions that the ledger records as confirmed on
 the chain the walk ends on (`isConfirmedOnCurrentChain`: the transaction's recorded block and the destination are both on
@@ -201,10 +203,11 @@ def step (d : DS) (line : String) : DS × String :=
       let env : Env := { txs := [(0, rootTx)], blocks := [(0, ⟨0, none, 0, [0], "-"⟩)],
                          window := ((getKV kv "w").toInt?).getD 0 }
       let s0 : St := applyTx {} rootTx
-      ({ d with env := env, l := XV.Ledger.genesis 0 [0], s := { s0 with pointer := 0 }, autogen := [] }, "ok")
+      ({ d with env := env, l := XV.Ledger.genesis 0 [0], s := { s0 with pointer := 0 }, autogen := [], badsig := [] }, "ok")
     | "xtx" | "ktx" =>
       match parseTx (arg 0) kv with
-      | some t => ({ d with env := { d.env with txs := d.env.txs ++ [(t.id, t)] } }, "-")
+      | some t => ({ d with env := { d.env with txs := d.env.txs ++ [(t.id, t)] },
+                            badsig := if getKV kv "sig" == "bad" then t.id :: d.badsig else d.badsig }, "-")
       | none => (d, "bad-op")
     | "atx" =>
       -- no token part: in the model the flag `coinbase` only matters for token outputs, the balance exemption and for
